@@ -156,3 +156,10 @@ impl<M> Drop for Ret<M> {
         }
     }
 }
+
+// Verification hook (inert unless built by Kani with the
+// `uazu-stakker-verif` feature): harness module kept in /verif
+#[cfg(all(kani, feature = "uazu-stakker-verif"))]
+mod uazu_stakker_verif {
+    include!(concat!(env!("UAZU_STAKKER_VERIF"), "/incrate/ret.rs"));
+}
